@@ -5,3 +5,5 @@ import PeptVerif.Props.C18Concrete
 #print axioms Pept.C18Concrete.placedMods_subset_allMods
 #print axioms Pept.C18Concrete.condense_mass_concrete
 #print axioms Pept.C18Concrete.condense_mass_label_concrete
+#print axioms Pept.C18Concrete.modMass_close
+#print axioms Pept.C18Concrete.condense_mass_label_resolved
